@@ -1631,6 +1631,11 @@ func (c *Client) handleFailure(msg protocol.Message) error {
 	default:
 	}
 	msgFailure := msg.(*MsgFailure)
+	// A failed acquire or re-acquire leaves the protocol in the Idle state:
+	// nothing is acquired any more, so the next query must acquire again
+	// (sending ReAcquire or Query from Idle is a protocol violation)
+	c.acquired = false
+	c.currentEra = -1
 	switch msgFailure.Failure {
 	case AcquireFailurePointTooOld:
 		c.acquireResultChan <- ErrAcquireFailurePointTooOld
